@@ -69,7 +69,7 @@ def q_split(shape, ncaps, wmax, cmax):
         ctx.must("other_events_kept", events_eq_multiset_timed(other_out, b.events))
         er2, dr2 = rel_events(raw_rel(src))
         ea2, da2 = abs_events(raw_abs(src))
-        ctx.must("source_unchanged", and_(events_eq_positionwise(er2, before), eq(dr2, b.total),
+        ctx.must("source_unchanged", and_(events_eq_multiset_timed(er2, before), eq(dr2, b.total),
                                           events_eq_multiset_timed(ea2, before), eq(da2, b.total)))
         return [[obs_rel(raw_rel(p)) for p in pieces], obs_rel(raw_rel(src))]
     return Query(f"{shape}/caps{ncaps}/w{wmax}c{cmax}", fn,
